@@ -959,6 +959,7 @@ func runC13(c *Ctx) {
 	ruleSizeGuard(c, "mdiff")
 	ruleChunkLoopComplete(c)
 	ruleSidePairing(c)
+	ruleGuardSubject(c)
 	ruleAllocBounded(c, "mdiff", false)
 
 	// ---- R-LR-MIRROR
@@ -1524,8 +1525,8 @@ func ruleBoundSide(c *Ctx, pkg string) {
 						x, y, op = y, x, flipOp(op)
 					}
 					ln, isLen := isBuiltinCall(y, "len")
-					if !isLen || x == idx || (op != token.LSS && op != token.LEQ) {
-						continue
+					if !isLen || x == idx || sym(x) == sym(idx) || (op != token.LSS && op != token.LEQ) {
+						continue // (the same index recomputed is the same index)
 					}
 					if b2, g := loadedField(ln.Call.Args[0]); g != nil && sameField(g, f) && sym(b2) == sym(base) {
 						if _, isK := x.(*ssa.Const); isK {
